@@ -111,20 +111,27 @@ func c13Occurrence(c *vrep.Ctx) {
 		sep  string
 	}{{"none", nil, " "}, {"FlattenWhitespace", []NormalizeFunc{FlattenWhitespace}, " \n  "}}
 	ts := []float64{0.5, 0.8, 1}
-	c.R.Rule = fmt.Sprintf("ALL known-value sets over tokens {a,b,c,','}: every single value of 1..%d tokens and every pair of values of 1..%d tokens (none inside another) x ALL unknowns pre+K+post with pre/post of 0..%d tokens over {x,y,a} containing exactly one occurrence of K (family 'glued' attaches word or punctuation context without a blank: glued punctuation leaves the copy token aligned and is demanded exactly, glued letters are the recorded finding) x normaliser lists {none, FlattenWhitespace with multi-blank separators} x thresholds %v; MultipleMatch must report K with Confidence 1.0 and Offset/Extent of exactly that copy, NearestMatch(K) = (K, 1.0), all confidences in (0,1], all ranges inside the normalised unknown; library goroutines run as modelled threads (default schedule); non-trivial = distinct (value set, unknown, normaliser, threshold) cases", maxTok, pairTok, maxCtx, ts)
+	c.R.Rule = fmt.Sprintf("ALL known-value sets over tokens {a,b,c,','}: every single value of 1..%d tokens, every pair of values of 1..%d tokens (none inside another; second value absent, or both present separated by an unrelated token) and long values of 40/80 tokens x ALL unknowns pre+K+post with pre/post of 0..%d tokens over {x,y,a} containing exactly one occurrence of K (family 'glued' attaches word or punctuation context without a blank: glued punctuation leaves the copy token aligned and is demanded exactly, glued letters are the recorded finding) x normaliser lists {none, FlattenWhitespace with multi-blank separators} x thresholds %v; MultipleMatch must report K with Confidence 1.0 and Offset/Extent of exactly that copy, NearestMatch(K) = (K, 1.0), all confidences in (0,1], all ranges inside the normalised unknown; library goroutines run as modelled threads (default schedule); non-trivial = distinct (value set, unknown, normaliser, threshold) cases", maxTok, pairTok, maxCtx, ts)
 	c.Bound("max_value_tokens", maxTok)
 	c.Bound("max_context_tokens", maxCtx)
 	body := func(r *vx.Run) {
-		fam := r.Choose(3, "family") // 0 single value, 1 pair (second value absent), 2 glued context
+		fam := r.Choose(5, "family") // 0 single value, 1 pair (second value absent), 2 glued context, 3 both values present, 4 long value
 		var k1, k2 c13Value
 		two := false
 		switch fam {
 		case 0, 2:
 			k1 = single[r.Choose(len(single), "value")]
-		case 1:
+		case 1, 3:
 			k1 = small[r.Choose(len(small), "value1")]
 			k2 = small[r.Choose(len(small), "value2")]
 			two = true
+		case 4:
+			// long values (40 / 80 tokens) from a short pattern rotated through the alphabet
+			pat := small[r.Choose(len(small), "pattern")]
+			n := []int{40, 80}[r.Choose(2, "length")]
+			for i := 0; i < n; i++ {
+				k1.toks = append(k1.toks, pat.toks[i%len(pat.toks)]+alpha[(i/len(pat.toks))%2])
+			}
 		}
 		pre := ctxs[r.Choose(len(ctxs), "pre")]
 		post := ctxs[r.Choose(len(ctxs), "post")]
@@ -143,6 +150,10 @@ func c13Occurrence(c *vrep.Ctx) {
 			parts = append(parts, strings.Join(pre.toks, nm.sep))
 		}
 		parts = append(parts, strings.Join(k1.toks, nm.sep))
+		if fam == 3 {
+			// both values present, separated by an unrelated token
+			parts = append(parts, "zq", strings.Join(k2.toks, nm.sep))
+		}
 		if len(post.toks) > 0 {
 			parts = append(parts, strings.Join(post.toks, nm.sep))
 		}
@@ -166,9 +177,22 @@ func c13Occurrence(c *vrep.Ctx) {
 		id += fmt.Sprintf("} unknown %q norm=%s T=%v", unknown, nm.name, ts[ti])
 		normU := cl.normalize(unknown)
 		normK := cl.normalize(strings.Join(k1.toks, nm.sep))
-		if strings.Count(normU, normK) != 1 || (two && strings.Contains(normU, cl.normalize(strings.Join(k2.toks, nm.sep)))) {
+		normK2 := ""
+		if two {
+			normK2 = cl.normalize(strings.Join(k2.toks, nm.sep))
+		}
+		if strings.Count(normU, normK) != 1 || (two && fam == 1 && strings.Contains(normU, normK2)) || (fam == 3 && strings.Count(normU, normK2) != 1) {
 			r.Note = map[string]interface{}{"skip": true}
 			return
+		}
+		if fam == 3 {
+			// the two occurrences must not overlap
+			a2 := strings.Index(normU, normK2)
+			a1 := strings.Index(normU, normK)
+			if a1 < a2+len(normK2) && a2 < a1+len(normK) {
+				r.Note = map[string]interface{}{"skip": true}
+				return
+			}
 		}
 		at := strings.Index(normU, normK)
 		var ms Matches
@@ -190,12 +214,25 @@ func c13Occurrence(c *vrep.Ctx) {
 					found = true
 				}
 			}
+			if found && fam == 3 {
+				at2 := strings.Index(normU, normK2)
+				found2 := false
+				for _, m := range ms {
+					if m.Name == "K2" && m.Confidence == 1.0 && m.Offset == at2 && m.Extent == len(normK2) {
+						found2 = true
+					}
+				}
+				if !found2 {
+					found = false
+					at, normK = at2, normK2
+				}
+			}
 			if !found {
 				var got []string
 				for _, m := range ms {
 					got = append(got, fmt.Sprintf("%s conf=%v off=%d ext=%d", m.Name, m.Confidence, m.Offset, m.Extent))
 				}
-				msg = fmt.Sprintf("MultipleMatch did not report K1 with Confidence 1.0 at Offset %d Extent %d; got %v", at, len(normK), got)
+				msg = fmt.Sprintf("MultipleMatch did not report the value with Confidence 1.0 at Offset %d Extent %d; got %v", at, len(normK), got)
 			} else if m := checkMatches(ms, normU, ts[ti]); m != "" {
 				msg = m
 			} else if near == nil || near.Name != "K1" || near.Confidence != 1.0 {
